@@ -80,6 +80,8 @@ def _lattice_unit():
                     (arg,) = args
                     r = ObjV('LabelText', {}, name='%s(%s)' % (which, arg.name))
                     r.made_by, r.arg = which, arg
+                    nonempty = p.fresh_bool('label-text-nonempty')       # a callback may return an empty text
+                    r.truth_fn = lambda: nonempty
                     return r
                 return FuncV(which, f)
 
